@@ -65,6 +65,8 @@ def same_value(a, b):
         return list(a.keys()) == list(b.keys()) and all(same_value(a[k], b[k]) for k in a)
     if isinstance(a, float) and isinstance(b, float):
         return a.hex() == b.hex()
+    if isinstance(a, str) or isinstance(b, str):
+        return a == b
     if isinstance(a, bool) != isinstance(b, bool):
         return False
     return type(a) is type(b) and a == b
@@ -89,6 +91,14 @@ def rand_json_species(rng):
         sp.effective_electrons = None
     if rng.random() < 0.2:
         sp.electron_cross_section = None
+    # optional data that is present but falsy (0, 0.0, empty) is still data
+    r = rng.random()
+    if r < 0.1:
+        sp.effective_electrons = rng.choice([0, 0.0])
+    elif r < 0.2:
+        sp.electron_cross_section = rng.choice([0.0, 0, [], (0.0, 0.0, 0.0, 0.0)])
+    if rng.random() < 0.1:
+        sp.polarisability = 0.0
     if rng.random() < 0.3:
         sp.emission_lines = [tuple(l) for l in sp.emission_lines]
     if hasattr(sp, "energy_levels") and rng.random() < 0.3:
@@ -102,8 +112,8 @@ def derived(sp, T):
     out = [float(sp.internal_partition_function(T, 0.0)), float(sp.internal_energy(T, 1e-20)), float(sp.translational_partition_function(T))]
     try:
         out.append(float(ft.Qe(sp, 1, 1, T)))
-    except ValueError:
-        out.append("ValueError")
+    except Exception as e:  # noqa: BLE001
+        out.append(type(e).__name__)
     return out
 
 
